@@ -492,15 +492,16 @@ theorem putRec_holds {s s1 : AState} {path : String} {x : V} (h : putRec s path 
       · exact h'
       · rw [hcanon] at c1; cases c1
 
-/-- the operators that perform at most one `Put` + `record` of a present value. -/
+/-- the operators that perform at most one `Put` + `record` of the same present value. -/
 def scalarOps : List String :=
-  ["$set", "$setOnInsert", "$inc", "$mul", "$min", "$max", "$currentDate", "$bit"]
+  ["$set", "$setOnInsert", "$inc", "$mul", "$min", "$max", "$currentDate", "$bit",
+   "$pull", "$pullAll", "$addToSet"]
 
 theorem applyOp_scalar_shape (c : ACtx) (s s1 : AState) (op path : String) (v : V)
     (hop : op ∈ scalarOps) (h : applyOp c s op path v = .ok s1) :
     s1 = s ∨ ∃ x, putRec s path x = .ok s1 := by
   simp only [scalarOps, List.mem_cons, List.not_mem_nil, or_false] at hop
-  rcases hop with e | e | e | e | e | e | e | e <;> subst e <;>
+  rcases hop with e | e | e | e | e | e | e | e | e | e | e <;> subst e <;>
     (unfold applyOp at h; simp only [] at h) <;>
     repeat' (first
       | (cases h; done)
@@ -541,6 +542,19 @@ theorem unset_holds (c : ACtx) (s s1 : AState) (path : String) (v : V)
     rcases get_after_unset _ _ _ _ _ false hput hn with h' | h'
     · left; unfold Get; rw [h']
     · right; unfold Get; rw [h']
+
+/-- `$pop` records the array it reads back from the result. -/
+theorem pop_holds (c : ACtx) (s s1 : AState) (path : String) (v : V)
+    (h : applyOp c s "$pop" path v = .ok s1) :
+    s1 = s ∨ ∃ x, s1.changed = s.changed ++ [(path, x)] ∧ Get s1.doc path = x := by
+  unfold applyOp at h; simp only [] at h
+  repeat' (first
+    | (cases h; done)
+    | (cases h; exact .inl rfl)
+    | split at h)
+  all_goals
+    (right
+     exact ⟨_, (record_changed h).1, by rw [record_doc h]; rfl⟩)
 
 /-! ### Apply on a single operator with a single literal path -/
 
